@@ -34,7 +34,7 @@ Init0 == [tid |-> "none", line |-> 0, maxsize |-> 0, loading |-> 0, failing |-> 
           pendDemote |-> {}, lastfail |-> FALSE, final |-> FALSE, lastdl |-> 0, failedEnt |-> {}, taint |-> [k \in KeyDom |-> -1], kflost |-> {}, kflostD |-> {}, copied |-> <<>>,
           closed |-> FALSE, viol |-> {}, traces |-> 0, gets |-> 0, demotions |-> 0, kfail |-> {}]
 
-V(s, prop, kind) == IF Cardinality(s.viol) >= 60 THEN s ELSE [s EXCEPT !.viol = @ \cup {<<prop, s.tid, s.line, kind>>}]
+V(s, prop, kind) == IF Cardinality({x \in s.viol : x[1] = prop /\ x[4] = kind}) >= 25 THEN s ELSE [s EXCEPT !.viol = @ \cup {<<prop, s.tid, s.line, kind>>}]
 Vif(s, c, prop, kind) == IF c THEN V(s, prop, kind) ELSE s
 En(s, e) == Get(s.en, e, NoEn)
 ExpDl(t, ttl, old) == IF ttl > 0 THEN (IF ttl >= CapU - t THEN CapU ELSE t + ttl) ELSE old
